@@ -5,6 +5,7 @@ CONSTANTS
  RCf <- RCDef
  MaxMods = 2
  RestoreOnFailure = FALSE
+ PalSelf = FALSE
  Faults <- AnyFault
 INVARIANT C03_OutcomeIsExpected
 INVARIANT C03_EachModuleOnce
